@@ -118,7 +118,7 @@ Definition dec_schema (s : sexp) : option schema :=
   | Some [SL ts; SStr q; m; sb] =>
       match map_opt (dec_named dec_typedef) ts, as_option as_bytes m, as_option as_bytes sb with
       | Some tys, Some mu, Some su =>
-          Some {| types := tys; query := q; mutation := mu; subscription := su; s_inputs := []; s_argdefs := [] |}
+          Some {| types := tys; query := q; mutation := mu; subscription := su; s_inputs := []; s_dt := []; s_argdefs := [] |}
       | _, _, _ => None
       end
   | Some [SL ts; SStr q; m; sb; ins; ads] =>
@@ -127,10 +127,23 @@ Definition dec_schema (s : sexp) : option schema :=
       | Some tys, Some mu, Some su, Some il, Some al =>
           match map_opt CoerceCheck.dec_env_entry il, map_opt dec_type_argdefs al with
           | Some ie, Some ad =>
-              Some {| types := tys; query := q; mutation := mu; subscription := su; s_inputs := ie; s_argdefs := ad |}
+              Some {| types := tys; query := q; mutation := mu; subscription := su; s_inputs := ie; s_dt := [];
+                      s_argdefs := ad |}
           | _, _ => None
           end
       | _, _, _, _, _ => None
+      end
+  | Some [SL ts; SStr q; m; sb; ins; ads; dts] =>
+      match map_opt (dec_named dec_typedef) ts, as_option as_bytes m, as_option as_bytes sb,
+            tagged "inputs" ins, tagged "argdefs" ads, tagged "dt" dts with
+      | Some tys, Some mu, Some su, Some il, Some al, Some dl =>
+          match map_opt CoerceCheck.dec_env_entry il, map_opt dec_type_argdefs al, map_opt CoerceCheck.dec_dt_entry dl with
+          | Some ie, Some ad, Some dt =>
+              Some {| types := tys; query := q; mutation := mu; subscription := su; s_inputs := ie; s_dt := dt;
+                      s_argdefs := ad |}
+          | _, _, _ => None
+          end
+      | _, _, _, _, _, _ => None
       end
   | _ => None
   end.
